@@ -14,7 +14,7 @@ from core import Obligation
 SANITISE = [
     ("nonce_function_rfc6979_impl", "msg32", "rfc6979_key:scalar-decoded", "rfc6979_key:raw",
      "RFC 6979 3.2d keys the DRBG with the message reduced mod n (bits2octets); raw bytes differ for messages >= n",
-     {"C01", "C05"}),
+     {"C01", "C05", "C15"}),
 ]
 
 # length identity: (function, pointer param, length param, absorbing callee, ptr arg idx, len arg idx, properties)
@@ -113,6 +113,7 @@ def obligations(prog):
                     ok, det = False, "%s is modified at %s" % (p, m.loc)
             obs.append(Obligation("R-FLOW", oid, c[2], caller, text, ok, det, props=props))
     obs += cursor_obligations(prog)
+    obs += block_consumer_obligations(prog)
     return obs, {"sanitise": len(SANITISE), "length_id": len(LENGTH_ID), "pass_through": len(PASS_THROUGH)}
 
 
@@ -171,6 +172,92 @@ def cursor_obligations(prog):
     if n == 0:
         raise AnalysisBroken("R-CUR: no cursor updates found in secp256k1_sha256_write")
     # the loop / tail conditions must compare against the block size constant 64 only through len
+    return obs
+
+
+# block consumers: (function, pointer param, counter param, per-block consumer, block bytes)
+BLOCK_CONSUMERS = [
+    ("secp256k1_sha256_transform", "blocks64", "n_blocks", "secp256k1_sha256_transform_impl", 64, {"C05", "C02"}),
+]
+
+
+def _ptr_offset(e, ptr):
+    """e == ptr -> 0, ptr + c -> c, &ptr[c] -> c; else None."""
+    e = strip(e)
+    if kind(e) == "var" and e[1] == ptr:
+        return 0
+    if kind(e) == "bin" and e[1] == "+" and kind(strip(e[2])) == "var" and strip(e[2])[1] == ptr:
+        return int_val(e[3])
+    if kind(e) == "addr" and kind(strip(e[1])) == "index" and kind(strip(strip(e[1])[1])) == "var" and strip(strip(e[1])[1])[1] == ptr:
+        return int_val(strip(e[1])[2])
+    return None
+
+
+def block_consumer_obligations(prog):
+    """R-CUR (multi-block form): every iteration of a loop that feeds fixed-size blocks to a consumer must consume
+    consecutive blocks starting at the cursor, advance the cursor by exactly the bytes consumed and decrement the block
+    counter by exactly the number of blocks consumed; consumer calls outside loops consume one block each and need no advance."""
+    obs = []
+    for (fname, ptr, cntv, consumer, bs, props) in BLOCK_CONSUMERS:
+        f = prog.fn(fname)
+        if ptr not in f.param_index or cntv not in f.param_index:
+            raise AnalysisBroken("R-CUR: %s lost its parameters %s / %s" % (fname, ptr, cntv))
+        dom = f.dominators()
+        heads = sorted({s for s in f.blocks for p in f.blocks[s].preds if p in dom and s in dom[p]})
+        total_calls = len([1 for el, c in f.all_calls() if callee_name(c) == consumer])
+        if total_calls == 0:
+            raise AnalysisBroken("R-CUR: %s no longer calls %s" % (fname, consumer))
+        n = 0
+        in_loops = 0
+        for h in heads:
+            body = {b for b in f.reachable_from(h) if h in f.reachable_from(b)} | {h}
+            order = [b for b in f.rpo() if b in body]
+            offs, adv, dec, odd = [], 0, 0, []
+            for b in order:
+                blk = f.blocks[b]
+                for el in blk.elems:
+                    if not el.top:
+                        continue
+                    for x in walk(el.e):
+                        k = kind(x)
+                        if k == "call" and callee_name(x) == consumer:
+                            o = None
+                            for a in x[3]:
+                                o = _ptr_offset(a, ptr)
+                                if o is not None:
+                                    break
+                            if o is None:
+                                odd.append("consumer argument not of the form %s + c at %s" % (ptr, x[2]))
+                            else:
+                                offs.append(adv + o)
+                        elif k == "assign" and kind(strip(x[2])) == "var" and strip(x[2])[1] == ptr:
+                            c = int_val(x[3]) if x[1] == "+=" else (_ptr_offset(x[3], ptr) if x[1] == "=" else None)
+                            if c is None:
+                                odd.append("cursor update `%s` is not %s += constant" % (show(x), ptr))
+                            else:
+                                adv += c
+                        elif k == "incdec" and kind(strip(x[3])) == "var" and strip(x[3])[1] == ptr:
+                            adv += 1 if x[1] == "++" else -1
+                        elif k == "assign" and kind(strip(x[2])) == "var" and strip(x[2])[1] == cntv:
+                            c = int_val(x[3]) if x[1] == "-=" else None
+                            if c is None:
+                                odd.append("counter update `%s` is not %s -= constant" % (show(x), cntv))
+                            else:
+                                dec += c
+                        elif k == "incdec" and kind(strip(x[3])) == "var" and strip(x[3])[1] == cntv:
+                            dec += 1 if x[1] == "--" else -1
+            if not offs:
+                continue
+            in_loops += len(offs)
+            n += 1
+            kk = len(offs)
+            ok = not odd and sorted(offs) == [bs * j for j in range(kk)] and adv == bs * kk and dec == kk
+            obs.append(Obligation("R-FLOW", "R-FLOW:blocks:%s:loop#%d" % (fname, n), f.blocks[h].term["loc"] if f.blocks[h].term else f.loc, fname,
+                                  "each iteration must compress consecutive %d-byte blocks from the cursor, advance %s by the bytes consumed and count %s down by the blocks consumed" % (bs, ptr, cntv),
+                                  ok, "blocks consumed at offsets %s, cursor advanced by %d, counter decremented by %d%s"
+                                  % (sorted(offs), adv, dec, ("; " + "; ".join(odd)) if odd else ""), props=props))
+        if n == 0:
+            raise AnalysisBroken("R-CUR: no block-consuming loop found in %s" % fname)
     return obs
 
 
